@@ -1335,9 +1335,23 @@ def chunk_dispatch(repo: Repo, rep, P: str):
             rep.violation(f"{P}.R3", lcon, f"chnm == {k:#x} → `{tgt or 'nothing'}`", f"{what} chunk is no longer dispatched", f"{rel}:{lc.lineno}")
     # effect: written as CHNM 0x10a with Synth bytes, loaded through read_sunvox_file
     wsrc = norm(wf)
-    reads = [n for mname, mfn in samp.methods.items() if mname != "__init__" for n in ast.walk(mfn)
-             if isinstance(n, ast.Assign) and norm(n.targets[0]) == "self.effect" and isinstance(n.value, ast.Call)
-             and norm(n.value.func) == "read_sunvox_file"]
+    from ..packed import single_defs as _sd_e, resolve_names as _rn_e
+    reads, other_effect_stores = [], []
+    for mname in list(samp.methods):
+        if mname == "__init__":
+            continue
+        try:
+            mfn = repo.own_method(samp, mname)          # normal form: private (also inherited) helpers read through
+        except Exception:
+            mfn = samp.methods[mname]
+        d_e = _sd_e(mfn)
+        for n in ast.walk(mfn):
+            if isinstance(n, ast.Assign) and norm(n.targets[0]) == "self.effect":
+                v_e = _rn_e(n.value, d_e)
+                if isinstance(v_e, ast.Call) and norm(v_e.func) == "read_sunvox_file":
+                    reads.append(n)
+                elif isinstance(v_e, ast.Call):
+                    other_effect_stores.append(norm(v_e)[:80])
     writes = [n for n in ast.walk(wf) if isinstance(n, ast.Call) and norm(n.func) in ("self.effect.write_to", "self.effect.read")]
     if not writes:
         # the effect may be written by a helper the normal form did not reach (a callee picked at run time)
@@ -1350,6 +1364,9 @@ def chunk_dispatch(repo: Repo, rep, P: str):
         pass
     elif writes and reads:
         rep.ok(f"{P}.R3", f"{rel}:Sampler.specialized_iff_chunks", "effect: write_to bytes ↔ read_sunvox_file", "embedded effect round-trips as a synth")
+    elif writes and other_effect_stores:
+        rep.inconclusive(f"{P}.R3", f"{rel}:Sampler.load_chunk", "; ".join(other_effect_stores)[:160],
+                         "the embedded effect is produced by a call that is not read through to read_sunvox_file", rel)
     else:
         rep.violation(f"{P}.R3", f"{rel}:Sampler.specialized_iff_chunks", "effect chunk", "embedded effect is not written as chunk 0x10a / not loaded through read_sunvox_file",
                       f"{rel}:{wf.lineno}")
